@@ -8,6 +8,7 @@ BUILD = os.path.join(VERIF, "build")
 GEN = os.path.join(LEAN, "NasVerif", "Gen")
 FACTS = os.path.join(BUILD, "facts")
 DRIVER = os.path.join(LEAN, ".lake", "build", "bin", "driver")
+SPECDRIVER = os.path.join(LEAN, ".lake", "build", "bin", "specdriver")
 ALLOWED_AXIOMS = {"propext", "Classical.choice", "Quot.sound"}
 
 GOENV = dict(os.environ, GOFLAGS="-mod=mod", GOPROXY="off", GOSUMDB="off", GOTOOLCHAIN="local",
@@ -175,9 +176,9 @@ def run_go(ops_path, out_path, mode=("run",), timeout=3600, env=None):
     return p.returncode, p.stderr
 
 
-def run_driver(ops_path, out_path, timeout=3600):
+def run_driver(ops_path, out_path, timeout=3600, exe=None):
     with open(ops_path) as i, open(out_path, "w") as o:
-        p = subprocess.run([DRIVER], stdin=i, stdout=o, stderr=subprocess.PIPE, text=True, timeout=timeout)
+        p = subprocess.run([exe or DRIVER], stdin=i, stdout=o, stderr=subprocess.PIPE, text=True, timeout=timeout)
     return p.returncode, p.stderr
 
 
